@@ -6,10 +6,17 @@
 //   generic = a user-defined probability-query-only struct (triple-loop branch)
 //
 // Protocol (one line per op, numbers as exact tokens):
-//   C05 upd <exact> S O | T_a (S*S, s-major) | Ob_a (S*O, s1-major) | R_a (S*S) | b (S)
-//        | dense <block> | sparse <block> | generic <block> | usereigen <block>
-//   C05 updc … same layout; dense = Model(UserModel) and sparse = SparseModel(that dense model) (converting constructors)
-//     block = partial(S) reward(1) { unnorm(S) norm(S) punnorm(S) pnorm(S) sosa(S*S) } for o = 0..O-1
+//   C05 upd <route> <exact> <sosa> S O | T_a (S*S, s-major) | Ob_a (S*O, s1-major) | R_a (S*S) | b (S)
+//        | dense <block> | sparse <block> | generic <block> | usereigen <block> | pob P(o|b,a) for o = 0..O-1
+//     route = tab  : dense/sparse built by the table constructors (sparse drops sub-threshold entries)
+//             conv : dense = Model(UserModel), sparse = SparseModel(that dense model)  (converting constructors)
+//             raw  : dense/sparse hold the supplied Eigen matrices as they are: NO_CHECK constructors (sparse matrices with explicit
+//                    zeros, left uncompressed), default constructor + Eigen-matrix setters, or the default-constructed model itself
+//     block = partial(S) reward(1) { unnorm(S) norm(S) punnorm(S) pnorm(S) [sosa(S*S) if <sosa>] } for o = 0..O-1
+//     pob   = SparseModel::getObservationProbability(b, o, a) of the sparse model of the line
+//   C05 tab <class> <route> S A O | T (A*S*S, a-major) | Ob (A*S*O, a-major)
+//        | getTransitionProbability (A*S*S) | getTransitionFunction(a)(s,s1) | getObservationProbability (A*S*O) | getObservationFunction(a)(s1,o)
+//   C05 accept <class> S A O | T | Ob | <1 = constructed, 0 = std::invalid_argument>      (class = dense | sparse, table constructors)
 //   C05 hist <rep> <exact> S A O | T (A*S*S, a-major) | Ob (A*S*O, a-major) | b0 (S) | n a1 o1 .. an on
 //        | { alpha_t(S) bel_t(S) } for t = 1..n
 //   C05 inplace <fn> <rep> <exact> S O o | T_a | Ob_a | in (S) | out-of-place result (S) | result of the same call with bRet == &in (S)
@@ -136,7 +143,7 @@ static std::vector<double> tinyRow(Rng & rng, size_t n) {
     return r;
 }
 
-enum Stream { ST_DYADIC, ST_UGLY, ST_TINY };
+enum Stream { ST_DYADIC, ST_UGLY, ST_TINY, ST_NEAR };
 
 static Tables makeTables(Rng & rng, size_t S, size_t A, size_t O, Stream st) {
     Tables t; t.S = S; t.A = A; t.O = O;
@@ -169,6 +176,50 @@ static Tables makeTables(Rng & rng, size_t S, size_t A, size_t O, Stream st) {
     return t;
 }
 
+// the tables of a default-constructed model: identity transitions, observation 0 certain, no rewards
+static Tables defaultTables(size_t S, size_t A, size_t O) {
+    Tables t; t.S = S; t.A = A; t.O = O; t.discount = 0.5;
+    t.T.assign(S, std::vector<std::vector<double>>(A, std::vector<double>(S, 0.0)));
+    t.R = t.T;
+    t.Ob.assign(S, std::vector<std::vector<double>>(A, std::vector<double>(O, 0.0)));
+    for (size_t s = 0; s < S; ++s) for (size_t a = 0; a < A; ++a) { t.T[s][a][s] = 1.0; t.Ob[s][a][0] = 1.0; }
+    return t;
+}
+
+// near-valid tables: push a few rows of a dyadic model to the edges of what the constructors accept
+// (row sums 1 +- d around the tolerance 1e-6, slightly negative entries, entries at/below the sparse storage
+// threshold, MANY tiny successors whose total mass is around the tolerance).  All values stay dyadic.
+static void perturb(Rng & rng, Tables & t) {
+    const int n = 1 + (int)rng.below(3);
+    for (int k = 0; k < n; ++k) {
+        const bool onT = rng.coin();
+        const size_t s = rng.below(t.S), a = rng.below(t.A);
+        auto & row = onT ? t.T[s][a] : t.Ob[s][a];
+        size_t big = 0; for (size_t j = 1; j < row.size(); ++j) if (row[j] > row[big]) big = j;
+        const int kind = (int)rng.below(6);
+        static const int up[] = {21, 20, 19, 18};
+        std::printf("#stat perturb_kind_%d 1\n", kind);
+        if (kind == 0) row[big] += std::ldexp(1.0, -up[rng.below(4)]);
+        else if (kind == 1) row[big] -= std::ldexp(1.0, -up[rng.below(4)]);
+        else if (kind == 2 && row.size() > 1) {
+            static const double ds[] = {0x1p-30, 0x1p-21, 0.25};
+            const double d = ds[rng.below(3)];
+            const size_t j = (big + 1 + rng.below(row.size() - 1)) % row.size();
+            row[big] += row[j] + d; row[j] = -d;
+        } else if (kind == 3 && row.size() > 1) {
+            static const int es[] = {26, 24, 21};
+            const double e = std::ldexp(1.0, -es[rng.below(3)]);
+            size_t cnt = 0, want = 1 + rng.below(row.size() - 1);
+            for (size_t j = 0; j < row.size() && cnt < want; ++j) if (j != big && row[j] == 0.0) { row[j] = e; row[big] -= e; ++cnt; }
+            std::printf("#stat tiny_successors_%s 1\n", cnt == 0 ? "0" : cnt < 3 ? "1-2" : cnt < 17 ? "3-16" : cnt < 68 ? "17-67" : "68+");
+        } else if (kind == 4 && row.size() > 1) {
+            const size_t j = (big + 1 + rng.below(row.size() - 1)) % row.size();
+            row[big] += row[j] - 0x1p-20; row[j] = 0x1p-20;
+        }
+        // kind 5: leave the row alone
+    }
+}
+
 static AI::Vector makeBelief(Rng & rng, size_t S, Stream st, int shape) {
     AI::Vector b(S); b.setZero();
     if (shape == 0 || S == 1) { b[rng.below(S)] = 1.0; return b; }                     // corner
@@ -196,14 +247,15 @@ static void overloadMismatch(const char * fn, const char * rep, const char * wha
 static void putVec(Line & l, const AI::Vector & v) { for (long i = 0; i < v.size(); ++i) l << (double)v[i]; }
 
 template <class M>
-static void emitBlock(Line & l, const M & m, const char * rep, const Tables & t, const AI::Vector & b, size_t a) {
+static void emitBlock(Line & l, const M & m, const char * rep, const Tables & t, const AI::Vector & b, size_t a, bool withSosa) {
     const size_t S = t.S, O = t.O;
     // predict step, both overloads
     AI::Vector partial = PO::updateBeliefPartial(m, b, a);
     { AI::Vector p2(S); PO::updateBeliefPartial(m, b, a, &p2); if (!sameBits(partial, p2)) overloadMismatch("updateBeliefPartial", rep, "pointer_vs_value"); }
     putVec(l, partial);
     l << PO::beliefExpectedReward(m, b, a);
-    auto sosa = PO::makeSOSA(m);
+    using SosaT = decltype(PO::makeSOSA(m));
+    std::unique_ptr<SosaT> sosa; if (withSosa) sosa.reset(new SosaT(PO::makeSOSA(m)));
     for (size_t o = 0; o < O; ++o) {
         AI::Vector un = PO::updateBeliefUnnormalized(m, b, a, o);
         { AI::Vector x(S); PO::updateBeliefUnnormalized(m, b, a, o, &x); if (!sameBits(un, x)) overloadMismatch("updateBeliefUnnormalized", rep, "pointer_vs_value"); }
@@ -214,24 +266,78 @@ static void emitBlock(Line & l, const M & m, const char * rep, const Tables & t,
         AI::Vector pno = PO::updateBeliefPartialNormalized(m, partial, a, o);
         { AI::Vector x(S); PO::updateBeliefPartialNormalized(m, partial, a, o, &x); if (!sameBits(pno, x)) overloadMismatch("updateBeliefPartialNormalized", rep, "pointer_vs_value"); }
         putVec(l, un); putVec(l, no); putVec(l, pun); putVec(l, pno);
-        for (size_t s = 0; s < S; ++s) for (size_t s1 = 0; s1 < S; ++s1) l << (double)sosa[a][o].coeff(s, s1);
+        if (withSosa) for (size_t s = 0; s < S; ++s) for (size_t s1 = 0; s1 < S; ++s1) l << (double)(*sosa)[a][o].coeff(s, s1);
     }
+}
+
+enum Route { RT_TABLE, RT_NOCHECK, RT_SETTERS, RT_DEFAULT };
+
+// Eigen forms of the tables.  The sparse matrices may carry explicit zeros and stay uncompressed (insert() without makeCompressed()).
+static AI::Matrix3D denseT(const Tables & t) {
+    AI::Matrix3D m(t.A, AI::Matrix2D(t.S, t.S));
+    for (size_t a = 0; a < t.A; ++a) for (size_t s = 0; s < t.S; ++s) for (size_t s1 = 0; s1 < t.S; ++s1) m[a](s, s1) = t.T[s][a][s1];
+    return m;
+}
+static AI::Matrix3D denseOb(const Tables & t) {
+    AI::Matrix3D m(t.A, AI::Matrix2D(t.S, t.O));
+    for (size_t a = 0; a < t.A; ++a) for (size_t s = 0; s < t.S; ++s) for (size_t o = 0; o < t.O; ++o) m[a](s, o) = t.Ob[s][a][o];
+    return m;
+}
+static AI::Matrix2D denseR(const Tables & t) {
+    AI::Matrix2D m(t.S, t.A); m.setZero();
+    for (size_t a = 0; a < t.A; ++a) for (size_t s = 0; s < t.S; ++s) for (size_t s1 = 0; s1 < t.S; ++s1) m(s, a) += t.R[s][a][s1] * t.T[s][a][s1];
+    return m;
+}
+static AI::SparseMatrix2D toSparse(const AI::Matrix2D & d, int zeros, bool compress) {
+    // zeros: 0 = none stored, 1 = every other zero stored explicitly, 2 = all zeros stored
+    AI::SparseMatrix2D m(d.rows(), d.cols());
+    size_t k = 0;
+    for (long i = 0; i < d.rows(); ++i) for (long j = 0; j < d.cols(); ++j) {
+        if (d(i, j) != 0.0) m.insert(i, j) = d(i, j);
+        else if (zeros == 2 || (zeros == 1 && (k++ % 2 == 0))) m.insert(i, j) = 0.0;
+    }
+    if (compress) m.makeCompressed();
+    return m;
+}
+static AI::SparseMatrix3D toSparse3(const AI::Matrix3D & d, int zeros, bool compress) {
+    AI::SparseMatrix3D m; for (auto & x : d) m.push_back(toSparse(x, zeros, compress)); return m;
 }
 
 struct Models {
     Tables t;
+    Route route = RT_TABLE;
     std::unique_ptr<DenseM> dense, denseFromUser;
     std::unique_ptr<SparseM> sparse, sparseFromDense;
     UserModel user;
     std::unique_ptr<UserEigenModel> userEigen;
-    explicit Models(Tables tt) : t(std::move(tt)) {
+    explicit Models(Tables tt, Route rt = RT_TABLE, int zeros = 0, bool compress = true) : t(std::move(tt)), route(rt) {
+        if (route == RT_TABLE) {
         dense.reset(new DenseM(t.O, t.Ob, t.S, t.A, t.T, t.R, t.discount));
         // the sparse setters validate what they actually store: a table whose dropped sub-threshold entries push a row
         // outside the tolerance is (legitimately, property C06) rejected — such a case has no sparse path to compare
         try { sparse.reset(new SparseM(t.O, t.Ob, t.S, t.A, t.T, t.R, t.discount)); }
         catch (const std::invalid_argument &) { std::printf("#stat sparse_ctor_rejected 1\n"); throw SparseRejected(); }
+        } else if (route == RT_NOCHECK) {
+            dense.reset(new DenseM(AI::NO_CHECK, t.O, denseOb(t), AI::NO_CHECK, t.S, t.A, denseT(t), denseR(t), t.discount));
+            sparse.reset(new SparseM(AI::NO_CHECK, t.O, toSparse3(denseOb(t), zeros, compress), AI::NO_CHECK, t.S, t.A,
+                                     toSparse3(denseT(t), zeros, compress), toSparse(denseR(t), zeros, compress), t.discount));
+            std::printf("#stat route_nocheck 1\n#stat sparse_explicit_zeros_%d 1\n#stat sparse_%s 1\n", zeros, compress ? "compressed" : "uncompressed");
+        } else if (route == RT_SETTERS) {
+            dense.reset(new DenseM(t.O, t.S, t.A, t.discount));
+            dense->setTransitionFunction(denseT(t)); dense->setRewardFunction(denseR(t)); dense->setObservationFunction(denseOb(t));
+            sparse.reset(new SparseM(t.O, t.S, t.A, t.discount));
+            sparse->setTransitionFunction(toSparse3(denseT(t), zeros, compress)); sparse->setRewardFunction(toSparse(denseR(t), zeros, compress));
+            sparse->setObservationFunction(toSparse3(denseOb(t), zeros, compress));
+            std::printf("#stat route_setters 1\n#stat sparse_explicit_zeros_%d 1\n#stat sparse_%s 1\n", zeros, compress ? "compressed" : "uncompressed");
+        } else {
+            // the tables in `t` must be those of a default-constructed model (identity transitions, observation 0 certain)
+            dense.reset(new DenseM(t.O, t.S, t.A, t.discount));
+            sparse.reset(new SparseM(t.O, t.S, t.A, t.discount));
+            std::printf("#stat route_default 1\n");
+        }
         user.t = &t;
         userEigen.reset(new UserEigenModel(&t));
+        if (route != RT_TABLE) return;
         // the converting constructors: user-defined -> dense -> sparse
         denseFromUser.reset(new DenseM(user));
         // SparseModel(const M&) re-validates the rows AFTER dropping sub-threshold entries and may reject
@@ -245,7 +351,9 @@ struct Models {
 static void emitUpd(const Models & M, const AI::Vector & b, size_t a, bool exact, bool conv = false) {
     const Tables & t = M.t;
     if (conv && !M.sparseFromDense) conv = false;
-    Line l; l << "C05" << (conv ? "updc" : "upd") << exact << t.S << t.O << "|";
+    const bool withSosa = t.S <= 12;
+    const SparseM & spm = conv ? *M.sparseFromDense : *M.sparse;
+    Line l; l << "C05" << "upd" << (M.route != RT_TABLE ? "raw" : conv ? "conv" : "tab") << exact << withSosa << t.S << t.O << "|";
     for (size_t s = 0; s < t.S; ++s) for (size_t s1 = 0; s1 < t.S; ++s1) l << t.T[s][a][s1];
     l << "|";
     for (size_t s1 = 0; s1 < t.S; ++s1) for (size_t o = 0; o < t.O; ++o) l << t.Ob[s1][a][o];
@@ -253,11 +361,55 @@ static void emitUpd(const Models & M, const AI::Vector & b, size_t a, bool exact
     for (size_t s = 0; s < t.S; ++s) for (size_t s1 = 0; s1 < t.S; ++s1) l << t.R[s][a][s1];
     l << "|";
     putVec(l, b);
-    l << "|" << "dense";   emitBlock(l, conv ? *M.denseFromUser : *M.dense, "dense", t, b, a);
-    l << "|" << "sparse";  emitBlock(l, conv ? *M.sparseFromDense : *M.sparse, "sparse", t, b, a);
-    l << "|" << "generic"; emitBlock(l, M.user, "generic", t, b, a);
-    l << "|" << "usereigen"; emitBlock(l, *M.userEigen, "usereigen", t, b, a);
+    l << "|" << "dense";   emitBlock(l, conv ? *M.denseFromUser : *M.dense, "dense", t, b, a, withSosa);
+    l << "|" << "sparse";  emitBlock(l, spm, "sparse", t, b, a, withSosa);
+    l << "|" << "generic"; emitBlock(l, M.user, "generic", t, b, a, withSosa);
+    l << "|" << "usereigen"; emitBlock(l, *M.userEigen, "usereigen", t, b, a, withSosa);
+    // the library's own P(o | b, a) (note the argument order: belief, observation, action)
+    l << "|" << "pob";
+    for (size_t o = 0; o < t.O; ++o) l << spm.getObservationProbability(b, o, a);
     l.emit();
+}
+
+static void putTables(Line & l, const Tables & t) {
+    for (size_t a = 0; a < t.A; ++a) for (size_t s = 0; s < t.S; ++s) for (size_t s1 = 0; s1 < t.S; ++s1) l << t.T[s][a][s1];
+    l << "|";
+    for (size_t a = 0; a < t.A; ++a) for (size_t s1 = 0; s1 < t.S; ++s1) for (size_t o = 0; o < t.O; ++o) l << t.Ob[s1][a][o];
+}
+
+// what a constructed model answers when asked for its tables, through every getter the belief helpers read
+template <class M>
+static void emitTab(const M & m, const char * cls, const char * route, const Tables & t) {
+    Line l; l << "C05" << "tab" << cls << route << t.S << t.A << t.O << "|";
+    putTables(l, t);
+    l << "|";
+    for (size_t a = 0; a < t.A; ++a) for (size_t s = 0; s < t.S; ++s) for (size_t s1 = 0; s1 < t.S; ++s1) l << m.getTransitionProbability(s, a, s1);
+    l << "|";
+    for (size_t a = 0; a < t.A; ++a) for (size_t s = 0; s < t.S; ++s) for (size_t s1 = 0; s1 < t.S; ++s1) l << (double)m.getTransitionFunction(a).coeff(s, s1);
+    l << "|";
+    for (size_t a = 0; a < t.A; ++a) for (size_t s1 = 0; s1 < t.S; ++s1) for (size_t o = 0; o < t.O; ++o) l << m.getObservationProbability(s1, a, o);
+    l << "|";
+    for (size_t a = 0; a < t.A; ++a) for (size_t s1 = 0; s1 < t.S; ++s1) for (size_t o = 0; o < t.O; ++o) l << (double)m.getObservationFunction(a).coeff(s1, o);
+    l.emit();
+}
+static void emitTabs(const Models & M) {
+    const char * r = M.route == RT_TABLE ? "tab" : "raw";
+    emitTab(*M.dense, "dense", r, M.t); emitTab(*M.sparse, "sparse", r, M.t);
+    if (M.denseFromUser) emitTab(*M.denseFromUser, "dense", "conv", M.t);
+    if (M.sparseFromDense) emitTab(*M.sparseFromDense, "sparse", "conv", M.t);
+}
+
+// does the table constructor accept these tables?  (std::invalid_argument = rejected; anything else propagates)
+template <class M>
+static bool emitAccept(const char * cls, const Tables & t) {
+    bool ok = true;
+    try { M m(t.O, t.Ob, t.S, t.A, t.T, t.R, t.discount); } catch (const std::invalid_argument &) { ok = false; }
+    Line l; l << "C05" << "accept" << cls << t.S << t.A << t.O << "|";
+    putTables(l, t);
+    l << "|" << ok;
+    l.emit();
+    std::printf("#stat %s_ctor_%s 1\n", cls, ok ? "accepted" : "rejected");
+    return ok;
 }
 
 template <class M>
@@ -360,7 +512,7 @@ static Tables fixedTiger() {
     return t;
 }
 
-static const long kFixed = 5;
+static const long kFixed = 7;
 
 long verif::verif_ncases(const std::string & tier) {
     return kFixed + (tier == "thorough" ? 6000 : 260);
@@ -389,8 +541,46 @@ static void runFixed(long idx) {
         { AI::Vector b(2); b << 0.5, 0.5; emitUpd(M, b, 0, false); }
         return;
     }
+    if (idx == 5) {
+        // the other construction routes on the asymmetric S=3 models: NO_CHECK constructors (sparse matrices with every zero
+        // stored explicitly, uncompressed), default constructor + Eigen-matrix setters, and the default-constructed model itself
+        for (int which = 0; which < 2; ++which) {
+            const Tables t = which ? fixedAsym() : fixedCycle();
+            for (Route rt : {RT_NOCHECK, RT_SETTERS}) for (int z : {0, 2}) {
+                Models M(t, rt, z, z == 0);
+                emitTabs(M);
+                AI::Vector b(3); b << 0.125, 0.625, 0.25;
+                for (size_t a = 0; a < t.A; ++a) emitUpd(M, b, a, true);
+                Rng rng(777); AI::Vector b0(3); b0 << 0.5, 0.25, 0.25;
+                emitHist(*M.sparse, "sparseraw", M.t, b0, rng, 3, true);
+            }
+        }
+        Models D(defaultTables(3, 2, 3), RT_DEFAULT);
+        emitTabs(D);
+        AI::Vector b(3); b << 0.125, 0.625, 0.25;
+        for (size_t a = 0; a < 2; ++a) emitUpd(D, b, a, true);
+        return;
+    }
+    if (idx == 6) {
+        // what the table constructors accept: row sums 1 + 2^-20 (inside the tolerance 1e-6) and 1 + 2^-19 (outside), a slightly
+        // negative entry balanced so that the row still sums to one, and tiny successors whose total mass is inside / outside
+        // the tolerance once the sparse container has dropped them
+        auto base = [] { Tables t = fixedAsym(); return t; };
+        { Tables t = base(); t.T[0][0][0] += 0x1p-20; emitAccept<DenseM>("dense", t); emitAccept<SparseM>("sparse", t); }
+        { Tables t = base(); t.T[0][0][0] += 0x1p-19; emitAccept<DenseM>("dense", t); emitAccept<SparseM>("sparse", t); }
+        { Tables t = base(); t.Ob[1][0][0] = -0x1p-21; t.Ob[1][0][1] = 1.0 + 0x1p-21; emitAccept<DenseM>("dense", t); emitAccept<SparseM>("sparse", t); }
+        { Tables t = base(); t.T[1][0][0] = -0.25; t.T[1][0][1] = 0.5; emitAccept<DenseM>("dense", t); emitAccept<SparseM>("sparse", t); }
+        for (int cnt : {2, 3, 7}) {
+            Tables t = defaultTables(8, 1, 2);
+            for (int j = 1; j <= cnt; ++j) { t.T[0][0][j] = 0x1p-21; t.T[0][0][0] -= 0x1p-21; }
+            emitAccept<DenseM>("dense", t);
+            if (emitAccept<SparseM>("sparse", t)) { Models M(t); emitTabs(M); AI::Vector b(8); b.setZero(); b[0] = 0.5; b[3] = 0.5; emitUpd(M, b, 0, false); }
+        }
+        return;
+    }
     Tables t = idx == 0 ? fixedCycle() : idx == 1 ? fixedAsym() : fixedTiger();
     Models M(t);
+    emitTabs(M);
     // every corner, the uniform-ish interior and a face
     for (size_t a = 0; a < t.A; ++a) {
         for (size_t c = 0; c < t.S; ++c) { AI::Vector b(t.S); b.setZero(); b[c] = 1.0; emitUpd(M, b, a, true); }
@@ -421,7 +611,7 @@ static void verif_case_inner(Rng & rng, long idx, const std::string & tier) {
     const bool thorough = tier == "thorough";
     // stream: 70% dyadic (bit-exact), 20% ugly (non-dyadic, tolerance compare), 10% tiny (sub-threshold entries)
     uint64_t r = rng.below(10);
-    Stream st = r < 7 ? ST_DYADIC : r < 9 ? ST_UGLY : ST_TINY;
+    Stream st = r < 7 ? ST_DYADIC : r < 9 ? ST_UGLY : ST_TINY;   // (ST_NEAR is chosen below)
     size_t S = (size_t)rng.range(1, thorough ? 8 : 6);
     if (rng.coin(3, 4) && S < 3) S = (size_t)rng.range(3, 6);      // mostly S >= 3
     size_t A = (size_t)rng.range(1, 3);
@@ -430,15 +620,33 @@ static void verif_case_inner(Rng & rng, long idx, const std::string & tier) {
         S = (size_t)rng.range(9, thorough ? 24 : 16); A = (size_t)rng.range(1, 2); O = (size_t)rng.range(2, 3);
         std::printf("#stat large_S 1\n");
     }
-    Models M(makeTables(rng, S, A, O, st));
-    const bool exact = st != ST_UGLY;
-    std::printf("#stat stream_%s 1\n#stat S_%zu 1\n#stat O_%zu 1\n", st == ST_DYADIC ? "dyadic" : st == ST_UGLY ? "ugly" : "tiny", S, O);
+    // construction route: 60% table constructors (+ converting constructors), 15% NO_CHECK, 15% default + Eigen setters, 10% default model
+    const uint64_t rr = rng.below(20);
+    Route rt = rr < 12 ? RT_TABLE : rr < 15 ? RT_NOCHECK : rr < 18 ? RT_SETTERS : RT_DEFAULT;
+    if (rng.coin(1, 8)) {
+        // near-valid tables through the table constructors; now and then with many states (many tiny successors)
+        st = ST_NEAR; rt = RT_TABLE;
+        if (rng.coin(1, 4)) { S = (size_t)rng.range(16, thorough ? 96 : 28); A = 1; O = (size_t)rng.range(2, 3); }
+    }
+    Tables tt = rt == RT_DEFAULT ? defaultTables(S, A, O) : makeTables(rng, S, A, O, st == ST_NEAR ? ST_DYADIC : st);
+    if (rt == RT_DEFAULT) st = ST_DYADIC;
+    if (st == ST_NEAR) {
+        perturb(rng, tt);
+        const bool okD = emitAccept<DenseM>("dense", tt), okS = emitAccept<SparseM>("sparse", tt);
+        std::printf("#stat stream_near 1\n");
+        if (!(okD && okS)) return;
+    }
+    const int zeros = (int)rng.below(3); const bool compress = rng.coin();
+    Models M(std::move(tt), rt, zeros, compress);
+    const bool exact = st != ST_UGLY && st != ST_NEAR;
+    std::printf("#stat stream_%s 1\n#stat S_%zu 1\n#stat O_%zu 1\n", st == ST_DYADIC ? "dyadic" : st == ST_UGLY ? "ugly" : st == ST_TINY ? "tiny" : "near_accepted", S, O);
+    if (S <= 8) emitTabs(M);
     for (int k = 0; k < 3; ++k) {
         int shape = (int)rng.below(3);
         AI::Vector b = makeBelief(rng, S, st, shape);
         size_t a = rng.below(A);
         std::printf("#stat belief_%s 1\n", shape == 0 ? "corner" : shape == 1 ? "face" : "interior");
-        emitUpd(M, b, a, exact, k == 2);       // the third belief goes through the converted models
+        emitUpd(M, b, a, exact, k == 2 && rt == RT_TABLE);       // the third belief goes through the converted models
     }
     // the pointer overloads called in place, one (b, a, o) per case
     if (!thorough || idx % 3 == 0) {
@@ -451,7 +659,7 @@ static void verif_case_inner(Rng & rng, long idx, const std::string & tier) {
     size_t n = (size_t)rng.range(1, hexact ? 3 : 6);
     Rng r1 = rng, r2 = rng, r3 = rng, r4 = rng;
     emitHist(*M.dense, "dense", M.t, b0, r1, n, hexact);
-    emitHist(*M.sparse, "sparse", M.t, b0, r2, n, hexact);
+    emitHist(*M.sparse, rt == RT_TABLE ? "sparse" : "sparseraw", M.t, b0, r2, n, hexact);
     emitHist(M.user, "generic", M.t, b0, r3, n, hexact);
     emitHist(*M.userEigen, "usereigen", M.t, b0, r4, n, hexact);
 }
